@@ -290,6 +290,22 @@ def _inverse_pairs(col, rule="C16.R2"):
         copy_ok = bool(st) and st[0].target[1] != arg and S.contains(st[0].target[1], lambda t: S.is_call_of(t, meth="copy") or S.is_call_of(t, ("attr", NP, "array"))) \
             and all(r.value == st[0].target[1] for r in sx.of_kind("return"))
         col.add(rule, f"MeritFunctionForMatch.{name}#works-on-a-copy", copy_ok, sx.loc(sx.fn), "the argument is not modified in place", "")
+        if op == "/" and st:
+            # knob values and limits come from the user (ints are common): an in-place true division on an integer array truncates
+            def _floaty(t):
+                if S.is_call_of(t) and t[1][:1] == ("attr",) and t[1][2] in ("array", "asarray", "zeros", "empty", "full", "astype", "asfarray"):
+                    kws = dict(t[3])
+                    dt = kws.get("dtype") or (t[2][0] if t[1][2] == "astype" and t[2] else None) or (t[2][1] if t[1][2] in ("array", "asarray") and len(t[2]) > 1 else None)
+                    if t[1][2] in ("asfarray",):
+                        return True
+                    if t[1][2] in ("zeros", "empty") and dt is None:
+                        return True
+                    return dt is not None and S.show(dt, False).strip("'\"").split(".")[-1] in ("float64", "float", "float_", "double", "f8", "longdouble", "float128")
+                return False
+            floaty = S.contains(st[0].target[1], _floaty)
+            col.add(rule, f"MeritFunctionForMatch.{name}#divides-a-float-array", floaty, sx.loc(sx.fn),
+                    "the array whose coordinates are divided in place by the weights is made a float array first (integer knob values or "
+                    "limits would be truncated by the in-place division)", S.show(st[0].target[1])[:100])
     col.add(rule, "MeritFunctionForMatch._x_to_knobs~_knobs_to_x#same-guard", info["_x_to_knobs"] == info["_knobs_to_x"] and info["_x_to_knobs"] is not None, m.rel,
             "the two weight conversions apply under the same condition, so they are inverse to each other",
             str({k: [S.show(c) for c in v] if v else None for k, v in info.items()}))
